@@ -119,6 +119,9 @@ fn jobs(tier: Tier) -> &'static Vec<Job> {
                         }
                         for t in [4u32, 8] {
                             for red in [5u32, 0] {
+                                if n >= 6 {
+                                    continue; // 18^5 step sequences per shard: beyond any reasonable deadline
+                                }
                                 for first in 0..18 {
                                     v.push(Job { spec: Spec { release, pcancel, t, red, body: 0 }, n, first: Some(first), stack: false, taps: true, level: lvl });
                                 }
